@@ -580,9 +580,9 @@ def concrete(p, vals):
     N, depth = p["N"], p["depth"]
 
     def fv(name):
-        if vals.get(name + "__nan", False):
+        if vals.get(name + ".nan", False):
             return np.nan
-        v = vals.get(name, 0.0)
+        v = vals.get(name + ".v", vals.get(name, 0.0))
         return float(v) if v is not None else 0.0
     rs = np.random.RandomState(4)
     data = {
